@@ -35,12 +35,14 @@ EXT = os.path.join(SPECS, "extdata")
 MC = os.path.join(EXT, "ExtLayoutMC.tla")
 SAVEMC = os.path.join(EXT, "ExtLayoutSaveMC.tla")
 TRACE = os.path.join(EXT, "ExtLayoutTrace.tla")
+RESAVE = os.path.join(EXT, "ExtLayoutResave.tla")
+RS_BASE = 20_000_000      # case ids of the re-save scenarios: RS_BASE + 8 * j + step
 
 # tier parameters.  cases = configurations executed on the implementation (None = all enumerated);
 # round = cases per execute/evaluate round (bounds memory); chunk = cases per TLC evaluation process.
 TIERS = {
-    "quick": dict(maxlen=3, cases=30000, round=30000, chunk=4000, mc_timeout=300),
-    "thorough": dict(maxlen=4, cases=400000, round=100000, chunk=12500, mc_timeout=1500),
+    "quick": dict(maxlen=3, cases=24000, chains=1500, round=30000, chunk=4000, mc_timeout=300),
+    "thorough": dict(maxlen=4, cases=380000, chains=12000, round=100000, chunk=12500, mc_timeout=1500),
 }
 
 
@@ -95,10 +97,47 @@ def _wanted_ext(c: dict, i: int) -> bool:
     return c["sizes"][i] > c["thr"] if c["be"] == "raw" else c["sizes"][i] >= c["thr"]
 
 
+def _chain_for(c: dict, rng: random.Random, names: dict, plan: dict) -> list:
+    """Re-save steps for one configuration: thresholds chosen so that the inline/external split changes (first
+    towards inline while something stays external when possible, then back), modes in place / other names."""
+    sizes = c["sizes"]
+    n = len(sizes)
+    cands = sorted({0, 100000} | set(sizes) | {max(0, x - 1) for x in sizes})
+
+    def split(thr):
+        return tuple(_wanted_ext(dict(c, thr=thr), i) for i in range(n))
+
+    modes = rng.choice([["inplace", "inplace", "otherdir"], ["inplace", "samedir", "inplace"],
+                        ["otherdir", "inplace", "inplace"], ["inplace", "inplace", "samedir"], ["inplace", "inplace"]])
+    steps, prev = [], c["thr"]
+    used_data, prev_model_nm = {plan["data_nm"]}, plan["model_nm"]
+    for k, mode in enumerate(modes):
+        cur = split(prev)
+        diff = [t for t in cands if split(t) != cur]
+        # k even: prefer "some external tensor becomes inline while another one stays external"
+        def good(t):
+            sp = split(t)
+            if k % 2 == 0:
+                return any(a and not b for a, b in zip(cur, sp)) and any(sp)
+            return any(b and not a for a, b in zip(cur, sp))
+        pref = [t for t in diff if good(t)]
+        thr = rng.choice(pref or diff or cands)
+        st = {"mode": mode, "thr": thr, "lim": c["lim"] if rng.random() < 0.5 else 0,
+              "workers": rng.choice(xl.WORKERS), "model_nm": prev_model_nm, "data_nm": plan["data_nm"]}
+        if mode != "inplace":
+            st["model_nm"] = rng.choice([m for m in names["st"] if m != prev_model_nm])
+            st["data_nm"] = rng.choice([d for d in names["raw"] if d not in used_data])
+            used_data.add(st["data_nm"])
+            prev_model_nm = st["model_nm"]
+        steps.append(st)
+        prev = thr
+    return steps
+
+
 def signatures(obs: dict, bad: list, info: dict | None, plan: dict) -> list:
     """One structural signature per failed formula: C07:<backend>:<formula>:<what the failing tensors are>."""
     c = obs["c"]
-    be = c["be"]
+    be = c["be"] + (":resave:" + obs["mode"] if obs.get("mode") else "")
     info = info or {}
     kinds = plan["kinds"]
     n = len(c["sizes"])
@@ -262,8 +301,10 @@ def _execute(pool, plans: list, names: dict, root: str, tag: str) -> tuple[list,
         obs_all.extend(r["obs"])
         info_all.update(r["info"])
     obs_all.sort(key=lambda o: o["id"])
-    if len(obs_all) != len(plans):
-        raise MachineryError(f"executed {len(obs_all)} of {len(plans)} cases")
+    got = {o["id"] for o in obs_all}
+    missing = [p["id"] for p in plans if p["id"] not in got]
+    if missing:
+        raise MachineryError(f"{len(missing)} of {len(plans)} cases were not executed (first: {missing[0]})")
     return obs_all, info_all
 
 
@@ -317,6 +358,40 @@ def _probe_plans(names: dict, seed: int, base_id: int) -> list:
     return P
 
 
+def _resave_probes(names: dict, seed: int, base_id: int) -> list:
+    """Hand-written re-save scenarios (same machinery, same oracle)."""
+    P = []
+
+    def add(c, chain, **kw):
+        plan = xl.plan_case(base_id + 8 * len(P), c, seed, names)
+        plan["fail"] = 0
+        plan["kinds"] = ["array"] * len(c["sizes"])
+        plan["place"] = ["main"] * len(c["sizes"])
+        plan.update(kw)
+        mn = [m for m in sorted(names["st"]) if m != plan["model_nm"]]
+        dn = [d for d in sorted(names["raw"]) if d != plan["data_nm"]]
+        plan["chain"] = [dict(mode=m, thr=t, lim=l, workers=w, model_nm=(plan["model_nm"] if m == "inplace" else mn[k % len(mn)]),
+                              data_nm=(plan["data_nm"] if m == "inplace" else dn[k % len(dn)]))
+                         for k, (m, t, l, w) in enumerate(chain)]
+        P.append(plan)
+
+    raw = dict(be="raw", thr=0, al=0, athr=0, lim=0)
+    st = dict(be="st", thr=0, al=0, athr=0, lim=0)
+    # in place, higher threshold: an untouched external tensor becomes inline while another one is rewritten
+    add(dict(raw, sizes=[10, 5000]), [("inplace", 100, 0, None), ("inplace", 0, 0, 2), ("otherdir", 100, 0, None)])
+    add(dict(raw, sizes=[10, 5000, 20, 3000]), [("inplace", 100, 0, 3), ("samedir", 10, 0, None), ("inplace", 100000, 0, None)],
+        place=["main", "then", "then", "else"])
+    add(dict(raw, sizes=[5000, 10, 4097], al=4096), [("inplace", 4097, 0, 2), ("inplace", 0, 0, None)])
+    # sharded raw writer onto its own files: refusal; onto other names: allowed
+    add(dict(raw, sizes=[3000, 3000, 3000], lim=6000), [("inplace", 0, 6000, None), ("inplace", 2999, 0, None),
+                                                          ("otherdir", 0, 6000, 2)])
+    add(dict(st, sizes=[10, 5000]), [("inplace", 100, 0, None), ("inplace", 0, 0, None), ("samedir", 100, 0, None)])
+    # safetensors, sharded, in place: lowering the threshold pushes a tensor from the first into the second shard
+    add(dict(st, sizes=[3000, 10, 3000, 3000], thr=100, lim=6005), [("inplace", 0, 6005, None)])
+    add(dict(st, sizes=[3000, 3000, 3000, 3000], lim=6000), [("inplace", 0, 6000, None), ("inplace", 3001, 6000, None)])
+    return P
+
+
 def run(ctx):
     tp = dict(TIERS[ctx.tier])
     if os.environ.get("C07_DEV_CASES"):
@@ -352,14 +427,26 @@ def run(ctx):
     ctx.extra["protocol_action_coverage"] = acts
     if len(acts) < len(want) or min(acts.values()) == 0:
         raise MachineryError(f"save protocol: an action was never taken: {acts}")
-    # two runs that must FAIL on the model: the formulas are not vacuous (side by side with the enumeration below)
+    # the re-save protocol (ExtLayoutResave): as designed every formula holds
+    r1r = _tlc(ctx, RESAVE, os.path.join(EXT, "ExtLayoutResaveMC.cfg"), tag="resave", workers=_nproc(), timeout=900,
+               deadlock=False, coverage=True)
+    _design_ok(r1r, "re-save protocol: ResaveBytes / NoStaleRead / RefusalKeepsFiles")
+    wantr = ("Split", "Load1", "Guard", "Write", "Load2", "Finish")
+    actr = {k.split("!")[1]: v[0] for k, v in r1r.coverage.items()
+            if k.startswith("ExtLayoutResave!") and k.split("!")[1] in wantr}
+    ctx.extra["resave_protocol_action_coverage"] = actr
+    if len(actr) < len(wantr) or min(actr.values()) == 0:
+        raise MachineryError(f"re-save protocol: an action was never taken: {actr}")
+    # runs that must FAIL on the model: the formulas are not vacuous (side by side with the enumeration below)
     side: dict = {}
 
     def _side(key, tla, cfgname, tag):
         side[key] = _tlc(ctx, tla, os.path.join(EXT, cfgname), tag=tag, workers=2, timeout=600, deadlock=False, count=False)
 
     ths = [threading.Thread(target=_side, args=("nofin", SAVEMC, "ExtLayoutSaveMC_nofinally.cfg", "nofin")),
-           threading.Thread(target=_side, args=("stdev", MC, "ExtLayoutMC_stdev.cfg", "stdev"))]
+           threading.Thread(target=_side, args=("stdev", MC, "ExtLayoutMC_stdev.cfg", "stdev")),
+           threading.Thread(target=_side, args=("loadafter", RESAVE, "ExtLayoutResaveMC_loadafter.cfg", "rs-loadafter")),
+           threading.Thread(target=_side, args=("stpershard", RESAVE, "ExtLayoutResaveMC_stpershard.cfg", "rs-stpershard"))]
     for t in ths:
         t.start()
     for t in ths:
@@ -367,9 +454,14 @@ def run(ctx):
     r1b, r1c = side["nofin"], side["stdev"]
     if "Restored" not in r1b.violated:
         raise MachineryError("Restored is vacuous: removing the finally block from the model does not break it")
+    if "ResaveBytes" not in side["loadafter"].violated:
+        raise MachineryError("re-save protocol: loading the small external tensors AFTER the destination was replaced "
+                             "is not refuted on the model (ResaveBytes vacuous)")
     ctx.extra["design_level"] = {
         "Restored without the finally block": sorted(r1b.violated),
-        "safetensors shard rule as implemented (current_shard_size > 0)": sorted(r1c.violated)}
+        "safetensors shard rule as implemented (current_shard_size > 0)": sorted(r1c.violated),
+        "re-save, small external tensors loaded after the write (refuted ordering)": sorted(side["loadafter"].violated),
+        "re-save, safetensors shards materialised per shard (as implemented)": sorted(side["stpershard"].violated)}
     if "InvOversizeOnlyAlone" not in r1c.violated:
         ctx.note("the safetensors shard rule 'as implemented' no longer breaks OversizeOnlyAlone in the model")
 
@@ -422,9 +514,23 @@ def run(ctx):
     ctx.extra["configurations_executed"] = len(idx)
     probes = _probe_plans(names, ctx.seed, 10_000_000)
     ctx.extra["probes_executed"] = len(probes)
+    # re-save scenarios: a seeded subset of the configurations with >= 2 tensors
+    pool2 = [i for i in range(len(cfgs)) if len(cfgs[i][0][1]) >= 2]
+    rng2 = random.Random(ctx.seed + 7)
+    n_ch = int(os.environ.get("C07_DEV_CHAINS") or tp["chains"])
+    chains = []
+    for j, i in enumerate(sorted(rng2.sample(pool2, min(n_ch, len(pool2))))):
+        plan = xl.plan_case(RS_BASE + 8 * j, xl.cdict(cfgs[i][0]), ctx.seed, names)
+        if plan["fail"]:
+            plan["fail"] = 0
+            plan["kinds"] = [k if k != "lazy-fail" else "lazy" for k in plan["kinds"]]
+        plan["chain"] = _chain_for(plan["c"], random.Random(ctx.seed * 31 + j), names, plan)
+        chains.append(plan)
+    chains += _resave_probes(names, ctx.seed, RS_BASE + 8 * (len(chains) + 10))
+    ctx.extra["resave_scenarios_executed"] = len(chains)
 
     # ---- (3)+(4) rounds: execute on the implementation, let TLC evaluate the observations -------------------
-    st = dict(div={}, div_samples={}, viol={}, aux={}, kinds={}, n_ok=0, t_exec=0.0, t_eval=0.0)
+    st = dict(div={}, div_samples={}, viol={}, aux={}, kinds={}, resave={}, n_ok=0, t_exec=0.0, t_eval=0.0)
     root, on_shm = _workroot(ctx)
     ctx.extra["case_directories_on"] = "/dev/shm" if on_shm else "scratch"
     try:
@@ -435,7 +541,7 @@ def run(ctx):
                 plans = [xl.plan_case(i + 1, xl.cdict(cfgs[i][0]), ctx.seed, names) for i in part]
                 exp = {i + 1: cfgs[i][1] for i in part}
                 if first:
-                    plans += probes
+                    plans += probes + chains
                     first = False
                 t0 = time.time()
                 obs_all, info_all = _execute(pool, plans, names, root, f"r{a}")
@@ -444,7 +550,12 @@ def run(ctx):
                 t0 = time.time()
                 rep = evaluate(ctx, obs_all, tp["chunk"], tag=f"tr{a}-")
                 st["t_eval"] += time.time() - t0
-                _classify(ctx, st, obs_all, info_all, rep, {p["id"]: p for p in plans}, exp, names)
+                by_id = {}
+                for p in plans:
+                    by_id[p["id"]] = p
+                    for k, stp in enumerate(p.get("chain", []), start=1):
+                        by_id[p["id"] + k] = dict(p, workers=stp["workers"], step=k, first_c=p["c"])
+                _classify(ctx, st, obs_all, info_all, rep, by_id, exp, names)
     finally:
         if on_shm:
             shutil.rmtree(root, ignore_errors=True)
@@ -453,6 +564,7 @@ def run(ctx):
     ctx.extra["evaluate_s"] = round(st["t_eval"], 1)
     ctx.validated += st["n_ok"]
     ctx.extra["kinds_executed"] = st["kinds"]
+    ctx.extra["resave_steps_by_feature"] = st["resave"]
     ctx.extra["divergences"] = st["div"]
     if st["div"]:
         ctx.extra["divergence_samples"] = st["div_samples"]
@@ -472,6 +584,8 @@ def _classify(ctx, st, obs_all, info_all, rep, plans_by_id, exp_by_id, names) ->
         pid = o["id"]
         plan = plans_by_id[pid]
         info = info_all.get(pid)
+        if o.get("mode"):
+            plan = dict(plan, kinds=(info or {}).get("kinds") or ["loaded"] * len(o["c"]["sizes"]))
         r = rep.get(pid, {"bad": [], "diff": []})
         c = o["c"]
         n = len(c["sizes"])
@@ -497,12 +611,22 @@ def _classify(ctx, st, obs_all, info_all, rep, plans_by_id, exp_by_id, names) ->
                 if sum(t["l"] for t in o["t"] if t["loc"] == f["name"]) < f["size"]:
                     feats.append("padding")
                     break
+        if o.get("mode"):
+            prev = plan["first_c"] if plan["step"] == 1 else dict(c, thr=plan["chain"][plan["step"] - 2]["thr"])
+            to_inline = any(_wanted_ext(prev, i) and not _wanted_ext(c, i) for i in range(n))
+            to_ext = any(not _wanted_ext(prev, i) and _wanted_ext(c, i) for i in range(n))
+            keeps = any(_wanted_ext(prev, i) and _wanted_ext(c, i) for i in range(n))
+            feats.append("resave:%s:%s%s%s%s" % (o["mode"], "to-inline" if to_inline else "", "+to-external" if to_ext else "",
+                                                "+stays-external" if keeps else "", "+refused" if o["refused"] else ""))
+            st["resave"][feats[-1]] = st["resave"].get(feats[-1], 0) + 1
         if plan["fail"]:
             feats.append("fail@%s" % ("model-file" if plan["fail"] > n else
                                       ("external" if _wanted_ext(c, plan["fail"] - 1) else "inline")))
         ks = sorted({_kindclass(k) for k in plan["kinds"]} - {"array"})
         for k in plan["kinds"]:
             st["kinds"][k.split(":")[0]] = st["kinds"].get(k.split(":")[0], 0) + 1
+        if o.get("mode"):
+            ks = []
         if ks:
             feats.append("kinds=" + "+".join(ks))
         if any(p != "main" for p in plan["place"]):
@@ -547,6 +671,9 @@ def _classify(ctx, st, obs_all, info_all, rep, plans_by_id, exp_by_id, names) ->
 def _message(o, plan, info, r) -> str:
     c = o["c"]
     api = "ir.save(external_data=...)" if c["be"] == "raw" else "ir.save_safetensors"
+    if o.get("mode"):
+        api = f"RE-SAVE step {plan.get('step')} ({o['mode']}) of a model first saved with {plan.get('first_c')} " \
+              f"(chain {[(x['mode'], x['thr'], x['lim']) for x in plan.get('chain', [])]}): " + api
     opts = f"sizes={c['sizes']} threshold={c['thr']} alignment={c['al'] or None} align_threshold={c['athr']} " \
            f"max_shard_size_bytes={c['lim'] or None} max_workers={plan['workers']}"
     extra = ""
@@ -559,17 +686,22 @@ def _message(o, plan, info, r) -> str:
 
 
 def replay(ctx, detail) -> bool:
-    """Re-execute one recorded case; True if TLC still reports a failed formula on what is observed."""
-    plan = detail["plan"]
+    """Re-execute one recorded case (for a re-save step: its whole chain); True if TLC still reports a failed
+    formula on what is observed for that case."""
+    plan = {k: v for k, v in detail["plan"].items() if k not in ("step", "first_c")}
+    want = detail["observation"]["id"]
     r0 = ctx.tlc(MC, _cfg_with(ctx.scratch, "ExtLayoutMC.cfg", "names.cfg", MaxLen=0), tag="names", workers=2,
                  timeout=300, deadlock=False)
     _cfgs, names = xl.parse_mc(r0.out_path)
     res = xl.run_batch(dict(plans=[plan], names=names, workdir=os.path.join(ctx.scratch, "replay")))
     if res["error"]:
         raise MachineryError(res["error"])
-    rep = evaluate(ctx, res["obs"], 10, tag="rp")
-    r = rep.get(plan["id"], {"bad": [], "diff": []})
-    print(f"replayed case {plan['id']}: formulas failing on the observed result: {r['bad']}; differs from the "
-          f"computed layout in: {r['diff']}")
-    print(json.dumps(res["obs"][0])[:1500])
+    rep = evaluate(ctx, res["obs"], 50, tag="rp")
+    r = rep.get(want, {"bad": [], "diff": []})
+    for o in res["obs"]:
+        rr = rep.get(o["id"], {"bad": [], "diff": []})
+        print(f"case {o['id']}{' (re-save ' + o['mode'] + ')' if o['mode'] else ''}: save {o['out']}; formulas failing on "
+              f"the observed result: {rr['bad']}; differs from the computed layout in: {rr['diff']}")
+        if o["id"] == want:
+            print(json.dumps(o)[:1500])
     return bool(r["bad"])
